@@ -706,8 +706,12 @@ class RequestHandler(BaseProtocol, Generic[_Request]):
             writer = StreamWriter(self, loop)
             pre_handler_error: HTTPBadRequest | None = None
             if isinstance(message, _ErrInfo):
+                # The parser's message may quote request bytes that are not
+                # valid UTF-8 (decoded with surrogateescape); they must not
+                # make building the 400 response fail.
                 pre_handler_error = HTTPBadRequest(
-                    text=message.message, content_type="text/plain"
+                    text=message.message.encode("utf-8", "backslashreplace").decode(),
+                    content_type="text/plain",
                 )
                 pre_handler_error.__cause__ = message.exc
                 message = ERROR
